@@ -215,6 +215,11 @@ def fresh_symbol(model: RefDir, prefix, n, r):
         return f'°{base}'
     if k == 5:
         return f'{base}.b-c'
+    if k == 6 and model.uorder:
+        # differs from an existing symbol only by case
+        other = model.uorder[r % len(model.uorder)].swapcase()
+        if other not in model.units and other.strip():
+            return other
     return base
 
 
